@@ -72,3 +72,10 @@ package lsputil
 //@   props C01 C06
 //@   requires MapInv(m)
 //@   ensures [C01:splice] result == applied(m.content, r.Start.Line, r.Start.Character, r.End.Line, r.End.Character, text)
+
+//@ func (*PositionMapper).LineUTF16Len
+//@   props C05 C06
+//@   effects none
+//@   requires MapInv(m)
+//@   ensures [range] result >= 0 && result <= len(m.content)
+//@   ensures [spec] 0 <= line && line < len(m.lines) ==> result == u16(m.lines[line], len(m.lines[line]))
